@@ -553,6 +553,285 @@ theorem inv_remComp (P : Params V) (T : Tables) (hcov : Coverage T = true) (w : 
           have hne : ¬ (k.id = kid') := by rw [hkid]; exact fun e' => e e'.symm
           exact find?_append_single _ _ _ (by simpa using hne)
 
+/-- nothing an attached object can see changes, the caches are kept -/
+theorem inv_of_same_views (P : Params V) (T : Tables) (w w' : World V) (hinv : Inv P T w)
+    (hca : w'.caches = w.caches) (hrg : w'.regs = w.regs)
+    (hatt : ∀ o, attached w' o = attached w o)
+    (hview : ∀ o nm, attached w o = true → viewOf T w' o nm = viewOf T w o nm) : Inv P T w' := by
+  refine ⟨?_, ?_, ?_, ?_⟩
+  · intro o nm sk v hv
+    rw [cacheOf_eq_of_caches hca] at hv
+    have ha : attached w o = true := by
+      cases h : attached w o with
+      | true => rfl
+      | false => rw [hinv.loose o h nm sk] at hv; cases hv
+    unfold fresh
+    rw [hview o nm ha]
+    exact hinv.coh _ _ _ _ hv
+  · intro o ha nm sk
+    rw [cacheOf_eq_of_caches hca]
+    exact hinv.loose o (by rw [← hatt]; exact ha) nm sk
+  · intro o nm sk v hv
+    rw [cacheOf_eq_of_caches hca] at hv
+    rw [hrg]; exact hinv.creg _ _ _ _ hv
+  · intro r hr; rw [hrg] at hr; exact hinv.rdef r hr
+
+/-- a change to the loose lists only -/
+theorem inv_loose_change (P : Params V) (T : Tables) (w w' : World V) (hinv : Inv P T w)
+    (hca : w'.caches = w.caches) (hrg : w'.regs = w.regs) (hgl : w'.glyphs = w.glyphs) (hf : w'.fuel = w.fuel)
+    (hgv : w'.groupsVer = w.groupsVer) : Inv P T w' := by
+  apply inv_of_same_views P T w w' hinv hca hrg
+  · intro o; cases o <;> simp [attached, hgl]
+  · intro o nm ha
+    cases o with
+    | contour cid =>
+      simp only [attached] at ha
+      simp only [viewOf, findContour, hgl]
+      cases hh : hostOfContour w.glyphs cid with
+      | none => rw [hh] at ha; cases ha
+      | some p => rfl
+    | comp kid =>
+      simp only [attached] at ha
+      simp only [viewOf, findComp, hgl, hf]
+      cases hh : hostOfComp w.glyphs kid with
+      | none => rw [hh] at ha; cases ha
+      | some p => rfl
+    | glyph x => simp only [viewOf, hgl, hf]
+    | groups => simp only [viewOf, hgv]
+
+theorem host_get_contour {gs : Layer} {cid : Nat} {h : String × GlyphS} (hn : (AL.keys gs).Nodup)
+    (hh : hostOfContour gs cid = some h) : AL.get? gs h.1 = some h.2 ∧ hasContour cid h.2 = true := by
+  unfold hostOfContour at hh
+  exact ⟨AL.get?_of_mem_nodup hn (List.mem_of_find?_eq_some hh), by simpa using List.find?_some hh⟩
+
+theorem host_get_comp {gs : Layer} {kid : Nat} {h : String × GlyphS} (hn : (AL.keys gs).Nodup)
+    (hh : hostOfComp gs kid = some h) : AL.get? gs h.1 = some h.2 ∧ hasComp kid h.2 = true := by
+  unfold hostOfComp at hh
+  exact ⟨AL.get?_of_mem_nodup hn (List.mem_of_find?_eq_some hh), by simpa using List.find?_some hh⟩
+
+theorem find?_map_self {α : Type} (l : List α) (fn : α → α) (q : α → Bool) (h : ∀ x, q (fn x) = q x) :
+    (l.map fun x => if q x then fn x else x).find? q = (l.find? q).map fn := by
+  induction l with
+  | nil => rfl
+  | cons a r ih =>
+    simp only [List.map_cons, List.find?_cons]
+    cases hq : q a with
+    | true => simp [h a, hq]
+    | false => simp [hq, ih]
+
+theorem bumpContour_id (clock : Nat) (cell : CCell) (c : ContourS) : (bumpContour clock cell c).id = c.id := by
+  cases cell <;> rfl
+
+theorem bumpComp_id (clock : Nat) (cell : CCell) (k : CompS) : (bumpComp clock cell k).id = k.id := by
+  cases cell <;> rfl
+
+theorem hasContour_mapContours (cid cid' : Nat) (fn : ContourS → ContourS) (hid : ∀ c, (fn c).id = c.id)
+    (r : GlyphS) : hasContour cid' (mapContours cid fn r) = hasContour cid' r := by
+  unfold hasContour mapContours
+  apply any_map_pres
+  intro x
+  by_cases e : x.id = cid <;> simp [e, hid]
+
+theorem contourIn_mapContours_other (cid cid' : Nat) (hne : cid' ≠ cid) (fn : ContourS → ContourS)
+    (hid : ∀ c, (fn c).id = c.id) (r : GlyphS) : contourIn (mapContours cid fn r) cid' = contourIn r cid' := by
+  unfold contourIn mapContours
+  apply find?_map_id_pres
+  · intro x
+    by_cases e : x.id = cid <;> simp [e, hid]
+  · intro x hx
+    simp only [decide_eq_true_eq] at hx
+    have : ¬ x.id = cid := by rw [hx]; exact hne
+    simp [this]
+
+theorem contourIn_mapContours_self (cid : Nat) (fn : ContourS → ContourS)
+    (hid : ∀ c, (fn c).id = c.id) (r : GlyphS) :
+    contourIn (mapContours cid fn r) cid = (contourIn r cid).map fn := by
+  unfold contourIn mapContours
+  have := find?_map_self r.contours fn (fun c => decide (c.id = cid)) (by intro x; simp [hid])
+  simpa using this
+
+theorem hasComp_mapComps (kid kid' : Nat) (fn : CompS → CompS) (hid : ∀ c, (fn c).id = c.id)
+    (r : GlyphS) : hasComp kid' (mapComps kid fn r) = hasComp kid' r := by
+  unfold hasComp mapComps
+  apply any_map_pres
+  intro x
+  by_cases e : x.id = kid <;> simp [e, hid]
+
+theorem compIn_mapComps_other (kid kid' : Nat) (hne : kid' ≠ kid) (fn : CompS → CompS)
+    (hid : ∀ c, (fn c).id = c.id) (r : GlyphS) : compIn (mapComps kid fn r) kid' = compIn r kid' := by
+  unfold compIn mapComps
+  apply find?_map_id_pres
+  · intro x
+    by_cases e : x.id = kid <;> simp [e, hid]
+  · intro x hx
+    simp only [decide_eq_true_eq] at hx
+    have : ¬ x.id = kid := by rw [hx]; exact hne
+    simp [this]
+
+theorem compIn_mapComps_self (kid : Nat) (fn : CompS → CompS)
+    (hid : ∀ c, (fn c).id = c.id) (r : GlyphS) :
+    compIn (mapComps kid fn r) kid = (compIn r kid).map fn := by
+  unfold compIn mapComps
+  have := find?_map_self r.comps fn (fun c => decide (c.id = kid)) (by intro x; simp [hid])
+  simpa using this
+
+theorem changed_lit : ("Contour" ++ ".Changed") = "Contour.Changed" := by decide
+theorem changed_litK : ("Component" ++ ".Changed") = "Component.Changed" := by decide
+
+theorem contourDeliv_self {n : Nat} {T : Tables} {gs : Layer} {h : String} {cid : Nat} {ns : List String}
+    {y : String} (hy : y ∈ ns) : (Obj.contour cid, y) ∈ contourDeliv n T gs h cid ns := by
+  unfold contourDeliv
+  apply List.mem_append_left
+  rw [List.mem_map]; exact ⟨y, hy, rfl⟩
+
+theorem contourDeliv_glyph {n : Nat} {T : Tables} {gs : Layer} {h : String} {cid : Nat} {ns : List String}
+    (hc : ns.contains "Contour.Changed" = true) {y : Obj × String}
+    (hy : y ∈ glyphDeliv n T gs h (T.postsOf "Glyph" "_contourChanged")) : y ∈ contourDeliv n T gs h cid ns := by
+  unfold contourDeliv
+  apply List.mem_append_right
+  simp only [hc, if_true]; exact hy
+
+theorem findContour_at_host (w w1 : World V) (cid : Nat) (h : String × GlyphS) (g' : GlyphS)
+    (hn : (AL.keys w.glyphs).Nodup) (hh : hostOfContour w.glyphs cid = some h)
+    (hgs : w1.glyphs = AL.set w.glyphs h.1 g') (hhas : hasContour cid g' = hasContour cid h.2) :
+    findContour w1 cid = contourIn g' cid ∧ findContour w cid = contourIn h.2 cid := by
+  obtain ⟨hg, _⟩ := host_get_contour hn hh
+  unfold findContour
+  refine ⟨?_, by rw [hh]⟩
+  unfold hostOfContour at hh ⊢
+  rcases host_set w w1 h.1 h.2 g' (hasContour cid) hn hg hgs hhas with ⟨_, h2⟩ | ⟨p, h2, ⟨_, _, h1⟩ | ⟨e1, _⟩⟩
+  · rw [hh] at h2; cases h2
+  · rw [h1]
+  · rw [hh] at h2; cases h2; exact absurd rfl e1
+
+theorem findComp_at_host (w w1 : World V) (kid : Nat) (h : String × GlyphS) (g' : GlyphS)
+    (hn : (AL.keys w.glyphs).Nodup) (hh : hostOfComp w.glyphs kid = some h)
+    (hgs : w1.glyphs = AL.set w.glyphs h.1 g') (hhas : hasComp kid g' = hasComp kid h.2) :
+    findComp w1 kid = compIn g' kid ∧ findComp w kid = compIn h.2 kid := by
+  obtain ⟨hg, _⟩ := host_get_comp hn hh
+  unfold findComp
+  refine ⟨?_, by rw [hh]⟩
+  unfold hostOfComp at hh ⊢
+  rcases host_set w w1 h.1 h.2 g' (hasComp kid) hn hg hgs hhas with ⟨_, h2⟩ | ⟨p, h2, ⟨_, _, h1⟩ | ⟨e1, _⟩⟩
+  · rw [hh] at h2; cases h2
+  · rw [h1]
+  · rw [hh] at h2; cases h2; exact absurd rfl e1
+
+theorem contourIn_of_has {r : GlyphS} {cid : Nat} (h : hasContour cid r = true) : ∃ c, contourIn r cid = some c := by
+  unfold hasContour at h
+  unfold contourIn
+  rw [List.any_eq_true] at h
+  obtain ⟨c, hc, hq⟩ := h
+  cases hf : r.contours.find? (fun c => decide (c.id = cid)) with
+  | some c' => exact ⟨c', rfl⟩
+  | none =>
+    have := List.find?_eq_none.mp hf c hc
+    exact absurd hq this
+
+theorem compIn_of_has {r : GlyphS} {kid : Nat} (h : hasComp kid r = true) : ∃ c, compIn r kid = some c := by
+  unfold hasComp at h
+  unfold compIn
+  rw [List.any_eq_true] at h
+  obtain ⟨c, hc, hq⟩ := h
+  cases hf : r.comps.find? (fun c => decide (c.id = kid)) with
+  | some c' => exact ⟨c', rfl⟩
+  | none =>
+    have := List.find?_eq_none.mp hf c hc
+    exact absurd hq this
+
+/-- a declared Contour mutator (`cmut`) -/
+theorem inv_cmut (P : Params V) (T : Tables) (hcov : Coverage T = true) (w : World V) (cid : Nat) (meth : String)
+    (hinv : Inv P T w) (hdom : Dom w) (hdom' : Dom (doCmut T w cid meth).1) : Inv P T (doCmut T w cid meth).1 := by
+  unfold doCmut at hdom' ⊢
+  cases hm : AL.get? contourMutators meth with
+  | none => simpa [hm] using hinv
+  | some cell =>
+    cases hh : hostOfContour w.glyphs cid with
+    | none =>
+      simp only [hm, hh] at hdom' ⊢
+      by_cases hl : w.looseC.any (fun c => c.id = cid) = true
+      · simp only [hl, if_true]
+        exact inv_loose_change P T w _ hinv rfl rfl rfl rfl rfl
+      · simp only [hl]; simpa using hinv
+    | some h =>
+      simp only [hm, hh] at hdom' ⊢
+      obtain ⟨hg, hhas⟩ := host_get_contour hdom.ids.keys hh
+      have hcc : covCell T "Contour" cell (T.postsOf "Contour" meth) = true := by
+        have h1 : contourMutators.all (fun p => covCell T "Contour" p.2 (T.postsOf "Contour" p.1)) = true :=
+          cov_mem hcov (by simp [covList])
+        exact List.all_eq_true.mp h1 (meth, cell) (AL.mem_of_get? hm)
+      unfold covCell at hcc
+      rw [Bool.and_eq_true, changed_lit] at hcc
+      generalize hw1 : (tick ({ w with glyphs := updGlyph w.glyphs h.1 (mapContours cid (bumpContour w.clock cell)) }
+          : World V) : World V) = w1 at hdom' ⊢
+      have hgs : w1.glyphs = AL.set w.glyphs h.1 (mapContours cid (bumpContour w.clock cell) h.2) := by
+        rw [← hw1]; exact updGlyph_eq_set _ hg
+      have hf : w1.fuel = w.fuel := by rw [← hw1]; rfl
+      have hrg : w1.regs = w.regs := by rw [← hw1]; rfl
+      have hgv : w1.groupsVer = w.groupsVer := by rw [← hw1]; rfl
+      have hca : w1.caches = w.caches := by rw [← hw1]; rfl
+      have hlc : w1.looseC = w.looseC := by rw [← hw1]; rfl
+      have hlk : w1.looseK = w.looseK := by rw [← hw1]; rfl
+      have hd1 := Dom.congr (sameStruct_applyDeliv T _ _).symm hdom'
+      have hcg := cov_glyphOutline hcov (m := "_contourChanged") (by simp [glyphOutlineMethods])
+      have hcreg1 : CachedRegistered T w1 := by
+        intro o nm sk v hv
+        rw [cacheOf_eq_of_caches hca] at hv
+        rw [hrg]; exact hinv.creg _ _ _ _ hv
+      have hid := bumpContour_id w.clock cell
+      refine inv_glyph_local P T hcov w w1 h.1 h.2 _ (T.postsOf "Glyph" "_contourChanged") _ hinv hg hgs hf hrg hgv
+        hd1 (fun y hy => contourDeliv_glyph hcc.1 hy) (Or.inl hcg.2)
+        (fun o nm sk v _ hv => by rw [cacheOf_eq_of_caches hca] at hv; exact hv) hcreg1 ?_ ?_ ?_ ?_
+      · intro o ha
+        rw [cacheOf_eq_of_caches hca]
+        have : attached w o = false := by
+          rw [← ha]; symm
+          cases o with
+          | contour cid' =>
+            exact attached_contour_set w w1 h.1 h.2 _ hdom.ids.keys hg hgs cid' (hasContour_mapContours cid cid' _ hid h.2)
+          | comp kid => exact attached_comp_set w w1 h.1 h.2 _ hdom.ids.keys hg hgs kid rfl
+          | glyph x => exact attached_glyph_set w w1 h.1 h.2 _ hg hgs x
+          | groups => rfl
+        exact hinv.loose o this
+      · intro nm sk v hs
+        exact (glyph_self_dead T hinv.rdef hrg hcg.1 hd1.bounded (fun y hy => contourDeliv_glyph hcc.1 hy) hcreg1 hs).elim
+      · intro cid' nm sk v hs
+        have h1 := (get?_applyDeliv T _ _ _ nm sk v hs).1
+        rw [cacheOf_eq_of_caches hca] at h1
+        by_cases e : cid' = cid
+        · subst e
+          obtain ⟨c0, hc0⟩ := contourIn_of_has hhas
+          obtain ⟨hf1, hf0⟩ := findContour_at_host w w1 cid' h _ hdom.ids.keys hh hgs (hasContour_mapContours cid' cid' _ hid h.2)
+          rw [contourIn_mapContours_self cid' _ hid h.2, hc0] at hf1
+          rw [hc0] at hf0
+          have hv0 := hinv.coh _ _ _ _ h1
+          simp only [fresh, viewOf, hf0, Option.map_some, Option.getD_some] at hv0
+          simp only [viewOf, hf1, Option.map_some, Option.getD_some]
+          by_cases hkeep : cell = CCell.attr ∧ isBuiltin T "Contour" nm = true
+          · rw [hv0]
+            obtain ⟨hc1, hbi⟩ := hkeep
+            subst hc1
+            simp [contourView, hbi, bumpContour, contourToks, Obj.cls]
+          · exfalso
+            have hreg := hinv.creg _ _ _ _ h1
+            have : ∃ d y, (nm, d) ∈ facsOf T w.regs "Contour" ∧ y ∈ T.postsOf "Contour" meth ∧ d.hit y = true := by
+              by_cases hc1 : cell = CCell.attr
+              · simp only [hc1, if_true] at hcc
+                have hnb : isBuiltin T "Contour" nm = false := by
+                  cases hb : isBuiltin T "Contour" nm with
+                  | false => rfl
+                  | true => exact absurd ⟨hc1, hb⟩ hkeep
+                exact hits_of_hitsReg hinv.rdef hcc.2 hreg hnb
+              · simp only [hc1, if_false] at hcc
+                exact hits_of_hitsAll hinv.rdef hcc.2 hreg
+            obtain ⟨d, y, hd, hy, hhit⟩ := this
+            exact not_survivor hs (by rw [hrg]; exact hd) (contourDeliv_self hy) hhit
+        · exact cont_of_view P T hinv h1
+            (viewOf_contour_of_find T (findContour_set w w1 h.1 h.2 _ hdom.ids.keys hg hgs cid' (by rw [hlc])
+              (hasContour_mapContours cid cid' _ hid h.2) (contourIn_mapContours_other cid cid' e _ hid h.2)) nm)
+      · intro kid
+        exact Or.inl (findComp_set w w1 h.1 h.2 _ hdom.ids.keys hg hgs kid (by rw [hlk]) rfl rfl)
+
 /-- an attribute mutator of a glyph (`gmut`) -/
 theorem inv_gmut (P : Params V) (T : Tables) (hcov : Coverage T = true) (w : World V) (g meth : String)
     (hinv : Inv P T w) (hdom : Dom w) (hdom' : Dom (doGmut T w g meth).1) : Inv P T (doGmut T w g meth).1 := by
